@@ -97,6 +97,10 @@ func (k vC28Kind) paths() []string {
 	if k.Type == "set" || k.Type == "time" {
 		return []string{"pql", "ids", "rpilosa", "rofficial", "mix"}
 	}
+	if k.Type == "int" {
+		// bulk: the same batches, the entry of a filler column repeated up to the size of fragment.importValue's bulk (snapshotting) path
+		return []string{"pql", "ids", "bulk", "mix"}
+	}
 	return []string{"pql", "ids", "mix"}
 }
 
@@ -164,6 +168,10 @@ func vC28ViewPart(ts time.Time, unit rune) string {
 func (m *vC28Model) apply(p vC28Phase, touchExistence bool) {
 	for _, o := range p.Ops {
 		rc := vC28RC{o.Row, o.Col}
+		if m.kind.Type == "int" && p.Clear {
+			delete(m.vals, o.Col)
+			continue
+		}
 		if m.kind.Type == "int" {
 			m.vals[o.Col] = o.Val
 			if touchExistence {
@@ -325,7 +333,15 @@ func (tg *vC28Target) writePQL(t vgtFataler, p vC28Phase) {
 	tg.model.apply(p, true)
 }
 
-func (tg *vC28Target) writeImport(t vgtFataler, p vC28Phase) {
+// vC28BulkN entries in one shard's ImportValue request reach the bulk path for every bit depth
+// (len*(bitDepth+1)+opN >= MaxOpN = 10000; MaxOpN cannot be lowered through the API).
+const vC28BulkN = 10001
+
+// vC28Filler is the column every unkeyed int set batch also writes in each shard it touches; the bulk path
+// repeats that entry to reach the bulk size.
+func vC28Filler(shard uint64) uint64 { return shard*pilosa.ShardWidth + 424242 }
+
+func (tg *vC28Target) writeImport(t vgtFataler, p vC28Phase, bulk bool) {
 	k := tg.kind
 	ctx := context.Background()
 	if k.Type == "int" {
@@ -351,8 +367,22 @@ func (tg *vC28Target) writeImport(t vgtFataler, p vC28Phase) {
 		}
 		sort.Slice(shards, func(i, j int) bool { return shards[i] < shards[j] })
 		for _, sh := range shards {
-			if err := tg.srv.cmd.API.ImportValue(ctx, byShard[sh]); err != nil {
-				t.Fatalf("API.ImportValue(%s shard %d, cols %v keys %v values %v): %v", tg.index, sh, byShard[sh].ColumnIDs, byShard[sh].ColumnKeys, byShard[sh].Values, err)
+			r := byShard[sh]
+			if bulk && !k.ColKeys {
+				// pad with duplicates of the batch's entry for the shard's filler column (written once by every
+				// path): the other columns occur once, as in the other paths
+				for i, c := range r.ColumnIDs {
+					if c == vC28Filler(sh) {
+						for len(r.ColumnIDs) < vC28BulkN {
+							r.ColumnIDs = append(r.ColumnIDs, c)
+							r.Values = append(r.Values, r.Values[i])
+						}
+						break
+					}
+				}
+			}
+			if err := tg.srv.cmd.API.ImportValue(ctx, r, pilosa.OptImportOptionsClear(p.Clear)); err != nil {
+				t.Fatalf("API.ImportValue(%s shard %d, clear=%v, %d entries, batch %s): %v", tg.index, sh, p.Clear, len(r.Values), p, err)
 			}
 		}
 		tg.model.apply(p, true)
@@ -464,9 +494,16 @@ func (tg *vC28Target) writeRoaring(t vgtFataler, p vC28Phase, official bool) {
 func (tg *vC28Target) write(t vgtFataler, path string, p vC28Phase) {
 	switch path {
 	case "pql":
+		if tg.kind.Type == "int" && p.Clear {
+			// PQL cannot clear an int value: every path clears through ImportValue(clear)
+			tg.writeImport(t, p, false)
+			return
+		}
 		tg.writePQL(t, p)
 	case "ids", "keys":
-		tg.writeImport(t, p)
+		tg.writeImport(t, p, false)
+	case "bulk":
+		tg.writeImport(t, p, true)
 	case "rpilosa":
 		tg.writeRoaring(t, p, false)
 	case "rofficial":
@@ -733,7 +770,7 @@ func vC28RenderFor(k vC28Kind, call string, res interface{}) string {
 // ---- generator ----
 
 func vC28GenKind(t *rapid.T) vC28Kind {
-	typ := rapid.SampledFrom([]string{"set", "set", "time", "time", "mutex", "bool", "int"}).Draw(t, "type")
+	typ := rapid.SampledFrom([]string{"set", "set", "time", "time", "mutex", "bool", "int", "int"}).Draw(t, "type")
 	k := vC28Kind{Type: typ}
 	switch typ {
 	case "set", "mutex":
@@ -779,11 +816,16 @@ func vC28GenPhases(t *rapid.T, k vC28Kind) (phases []vC28Phase, rows []uint64, s
 	}
 	nph := rapid.IntRange(1, 5).Draw(t, "nphases")
 	var written []vC28Op
+	curVals := map[uint64]int64{} // int fields: the value each column holds (a client clears the value it knows)
+	var cleared []uint64          // int fields: columns whose value was cleared and not set again
 	for pi := 0; pi < nph; pi++ {
 		l := fmt.Sprintf("p%d", pi)
 		ph := vC28Phase{}
-		if k.Type != "int" && len(written) > 0 {
+		if len(written) > 0 && (k.Type != "int" || len(curVals) > 0) {
 			ph.Clear = rapid.IntRange(0, 2).Draw(t, l+".clear") == 0
+			if k.Type == "int" && len(cleared) == 0 && rapid.Bool().Draw(t, l+".clearInt") {
+				ph.Clear = true
+			}
 		}
 		nops := rapid.IntRange(1, 8).Draw(t, l+".nops")
 		usedCol := map[uint64]uint64{}
@@ -797,6 +839,20 @@ func vC28GenPhases(t *rapid.T, k vC28Kind) (phases []vC28Phase, rows []uint64, s
 				if k.Type == "int" && rapid.Bool().Draw(t, ol+".newval") {
 					o.Val = rapid.Int64Range(k.Min, k.Max).Draw(t, ol+".val")
 				}
+			case k.Type == "int" && !ph.Clear && len(cleared) > 0 && rapid.IntRange(0, 2).Draw(t, ol+".reset") > 0:
+				// a new value for a column whose value was cleared (the cleared value's bits are still stored)
+				o.Col = cleared[rapid.IntRange(0, len(cleared)-1).Draw(t, ol+".resetCol")]
+				lo, hi := k.Min, k.Max
+				if lo < -8 {
+					lo = -8
+				}
+				if hi > 8 {
+					hi = 8
+				}
+				if lo > hi {
+					lo, hi = k.Min, k.Max
+				}
+				o.Val = rapid.OneOf(rapid.Int64Range(lo, hi), rapid.Int64Range(k.Min, k.Max)).Draw(t, ol+".resetVal")
 			default:
 				o.Row = rows[rapid.IntRange(0, len(rows)-1).Draw(t, ol+".row")]
 				o.Col = cols[rapid.IntRange(0, len(cols)-1).Draw(t, ol+".col")]
@@ -804,6 +860,21 @@ func vC28GenPhases(t *rapid.T, k vC28Kind) (phases []vC28Phase, rows []uint64, s
 					o.Row = 0
 					o.Val = rapid.OneOf(rapid.Int64Range(k.Min, k.Max), rapid.SampledFrom([]int64{k.Min, k.Max, k.Min + 1, k.Max - 1})).Draw(t, ol+".val")
 				}
+			}
+			if ph.Clear && k.Type == "int" {
+				// clear a column that holds a value, with that value; each column once per batch
+				var have []uint64
+				for c := range curVals {
+					if _, used := usedCol[c]; !used {
+						have = append(have, c)
+					}
+				}
+				if len(have) == 0 {
+					break
+				}
+				sort.Slice(have, func(i, j int) bool { return have[i] < have[j] })
+				o = vC28Op{Col: have[rapid.IntRange(0, len(have)-1).Draw(t, ol+".clearCol")]}
+				o.Val = curVals[o.Col]
 			}
 			if ph.Clear {
 				o.TS = time.Time{}
@@ -830,6 +901,39 @@ func vC28GenPhases(t *rapid.T, k vC28Kind) (phases []vC28Phase, rows []uint64, s
 			ph.Ops = append(ph.Ops, o)
 			if !ph.Clear {
 				written = append(written, o)
+			}
+		}
+		if k.Type == "int" && !k.ColKeys && !ph.Clear {
+			touched := map[uint64]bool{}
+			var order []uint64
+			for _, o := range ph.Ops {
+				if sh := o.Col / pilosa.ShardWidth; !touched[sh] {
+					touched[sh] = true
+					order = append(order, sh)
+				}
+			}
+			fv := rapid.Int64Range(k.Min, k.Max).Draw(t, l+".fillerVal")
+			for _, sh := range order {
+				if _, has := usedCol[vC28Filler(sh)]; !has { // one value per column within a batch
+					ph.Ops = append(ph.Ops, vC28Op{Col: vC28Filler(sh), Val: fv})
+				}
+			}
+		}
+		if k.Type == "int" {
+			for _, o := range ph.Ops {
+				keep := cleared[:0]
+				for _, c := range cleared {
+					if c != o.Col {
+						keep = append(keep, c)
+					}
+				}
+				cleared = keep
+				if ph.Clear {
+					delete(curVals, o.Col)
+					cleared = append(cleared, o.Col)
+				} else {
+					curVals[o.Col] = o.Val
+				}
 			}
 		}
 		phases = append(phases, ph)
@@ -1007,6 +1111,20 @@ func TestVerifC28_Paths(t *testing.T) {
 			}
 		}
 		multiView := k.Type != "time" || len(targets[paths[0]].model.views) >= 2
+		intReset := false
+		if k.Type == "int" {
+			wasCleared := map[uint64]bool{}
+			for _, ph := range phases {
+				for _, o := range ph.Ops {
+					if ph.Clear {
+						wasCleared[o.Col] = true
+					} else if wasCleared[o.Col] {
+						intReset = true
+					}
+				}
+			}
+		}
+		c.ClassIf(intReset, "intValueClearedThenSetAgain")
 		c.ClassIf(midReads > 0, "readsBetweenBatches").ClassIf(dup, "duplicates").ClassIf(setThenClear, "setThenClear").ClassIf(len(shards) >= 2, "multiShard")
 		for _, mc := range mixChoice {
 			c.Class("mix:" + mc)
